@@ -41,8 +41,11 @@ CHECKS = {
     "Kernel claim: TypeScript's enum auto-increment. Compiler::compile_enum_declaration is executed symbolically (BytecodeBuilder "
     "recorded as events) on two-member enums whose first member is any non-negative finite f64 literal, its negation, or absent: the value "
     "loaded for the member without initialiser equals the TypeScript emit (previous constant + 1 in doubles), forward and reverse stores "
-    "are emitted for both members in order, and compilation never panics. EnumData (value.rs) is unreachable from compiled programs and is "
-    "not the kernel. Namespaces, parameter properties, computed/string/const/merged enums are outside the claim.")),
+    "are emitted for both members in order, a member WITH an initialiser gets its value from the expression compiler (never a constant "
+    "loaded by the declaration itself, so `-0` stays -0), and compilation never panics. Seven TypeScript programs (enums with -0 / string "
+    "/ mixed members, a namespace merged with a function, constructor parameter properties incl. defaults and early return) are compared "
+    "with the JavaScript the TypeScript compiler emits for them - a replay route. EnumData (value.rs) is unreachable from compiled "
+    "programs and is not the kernel. Computed/const/merged enums, nested and merged namespaces and abstract classes are outside the claim.")),
  'C05': dict(design='section 3, C05', text=(
     "Kernel claim: compiler-side panic freedom at width boundaries. Every function of src/compiler whose MIR narrows a count to u8/u16 "
     "(array literals, call arguments, template literals, tagged templates, arrow/function/constructor parameter lists, array patterns) is "
@@ -81,8 +84,8 @@ CHECKS = {
     "programs of up to 2 (3) import/re-export/other statements yields one request per import or re-export, in order, resolved against "
     "resolve_base (ModulePath::resolve uninterpreted here, decided by C18) and carrying the given importer; "
     "Interpreter::resolve_module_specifier (used when a running module body binds its imports) resolves against the module being executed "
-    "and against the entry module only when there is none. Three whole graphs (nested directories, diamond under two spellings, re-exported "
-    "live binding) are loaded through the public API under three supply orders as a replay route. Evaluation order, exactly-once "
+    "and against the entry module only when there is none. Four whole graphs (nested directories, diamond under two spellings, a live "
+    "binding re-exported through one and through two hops) are loaded through the public API under three supply orders as a replay route. Evaluation order, exactly-once "
     "execution and live bindings in general - the larger part of the property - are outside the symbolic claim.")),
  'C16': dict(design='section 3, C16', text=(
     "Kernel claim: key canonicalisation only. For every string of up to 6 (11) bytes over {0-9,+,-,.,e,space}, PropertyKey::from_value and "
@@ -119,7 +122,9 @@ CHECKS = {
     "Kernel claim (relational): Interpreter::run_vm_to_completion (eval route) and Interpreter::process_vm_result (step route) executed "
     "from the same symbolic interpreter state on the same symbolic VmResult return the same Result<StepResult,_>, make the same calls with "
     "the same arguments in the same order and leave the same ledger, on every jointly feasible path pair; eval restores the environment "
-    "on every path like the step route does. Export finalisation, the C API "
+    "on every path like the step route does, or hands a suspended run over with the start environment remembered. Ten programs are "
+    "run through eval and through prepare+step to the END with the same scripted host (results, request lists, order traffic compared) "
+    "and one module is consumed as entry program and as host-supplied dependency - replay routes. Export finalisation as such, the C API "
     "and vm.run vs vm.step are outside the claim (a few concrete eval-vs-step programs are only a replay route).")),
  'C10': dict(design='section 3, C10', text=(
     "Kernel claim. (a) One operation of RegisterAllocator::{alloc,free,reserve_range,save,restore} from an ARBITRARY pre-state satisfying "
